@@ -769,7 +769,16 @@ fn configs(tier: &str) -> Vec<Cfg> {
 
 fn scenarios(tier: &str) -> Vec<C17> {
     let depth = if tier == "quick" { 4 } else { 5 };
-    let mut v: Vec<C17> = configs(tier).into_iter().map(|cfg| C17 { cfg, depth, alphabet: alphabet() }).collect();
+    // the four letters added last (split replies, unsolicited retry) run on the 8 quick
+    // configurations; the other 52 thorough configurations keep the 14-letter alphabet
+    let quick_cfgs = configs("quick");
+    let mut v: Vec<C17> = configs(tier)
+        .into_iter()
+        .map(|cfg| {
+            let full = tier == "quick" || quick_cfgs.iter().any(|q| format!("{q:?}") == format!("{cfg:?}"));
+            C17 { cfg, depth, alphabet: if full { alphabet() } else { alphabet()[..14].to_vec() } }
+        })
+        .collect();
     if tier == "quick" {
         v.push(C17 { cfg: configs("quick")[1], depth: 5, alphabet: alphabet()[..9].to_vec() });
     } else {
@@ -799,7 +808,7 @@ pub fn check(tier: &str) -> i32 {
     c.cases(&BackOff);
     c.finish(
         "model_checking",
-        "for each association configuration (automatic disable / integrity / enable on or off x time synchronisation none / LAN / non-LAN x event scan x retry strategy; 8 quick, 60 thorough) every history up to depth 4 (5-6 thorough) over 14 events (ideal reply, reply with RESTART / NEED_TIME / OVERFLOW / CLASS_1_EVENTS, IIN2 rejection, malformed reply, silence, unsolicited with / without data and with / without RESTART, reconnect, advance to the next timer) on the real MasterTask with one periodic poll configured; an order machine predicts the kind of every request written (clear restart > disable > integrity > time sync > enable > event scan > poll), retries are never earlier than the back-off deadline and happen by it, unsolicited data is neither delivered nor confirmed before the integrity poll completed; plus the back-off sequence of a permanently failing task followed to its fix-point for every (min, max) in {1 ms, 1 s, 3 s, 1 h}^2; non-trivial = at least two start-up requests were observed; distinct = distinct observation trace",
+        "for each association configuration (automatic disable / integrity / enable on or off x time synchronisation none / LAN / non-LAN x event scan x retry strategy; 8 quick, 60 thorough) every history up to depth 4 (5-6 thorough) over 18 events (14 on the 52 configurations only the thorough tier has: ideal reply, reply with RESTART / NEED_TIME / OVERFLOW / CLASS_1_EVENTS, IIN2 rejection, malformed reply, silence, unsolicited with / without data and with / without RESTART, reconnect, advance to the next timer; READ replies split in two fragments with the indications in the first only, a byte-identical repetition of the last unsolicited fragment) on the real MasterTask with one periodic poll configured; an order machine predicts the kind of every request written (clear restart > disable > integrity > time sync > enable > event scan > poll), retries are never earlier than the back-off deadline and happen by it, unsolicited data is neither delivered nor confirmed before the integrity poll completed; plus the back-off sequence of a permanently failing task followed to its fix-point for every (min, max) in {1 ms, 1 s, 3 s, 1 h}^2; non-trivial = at least two start-up requests were observed; distinct = distinct observation trace",
         &[
             "response timeout 1 s; the driver delivers replies promptly",
             "replies that are rejected or malformed carry no indications, so whether indications of unaccepted replies are processed is not constrained",
